@@ -523,11 +523,11 @@ pub fn run(tier: Tier) -> i32 {
             let _ = std::fs::create_dir_all(&dir);
             let inc = &r.program[a..b];
             let decoys = [".if 0\n junk one\n.endif\n", ".if 0\n junk one\n junk two\n junk three\n.if 1\n junk four\n.endif\n junk five\n.endif\n", ".ifdef never_defined_q\n junk one\n junk two\n.else\n.if 0\n junk three\n junk four\n junk five\n junk six\n.endif\n.endif\n"];
-            // (quick tier: one decoy and one order per trace, rotating; thorough: all six)
+            // (quick tier: one decoy and one order per trace, rotating; thorough: all six for traces of up to 4 directives)
             let turn = format!("{:?}", trace).bytes().fold(0usize, |h, b| h.wrapping_mul(31).wrapping_add(b as usize));
             for (di, decoy) in decoys.iter().enumerate() {
                 for decoy_first in [true, false] {
-                    if !tier.thorough() && (di * 2 + decoy_first as usize) != turn % 6 {
+                    if (!tier.thorough() || trace.len() > 4) && (di * 2 + decoy_first as usize) != turn % 6 {
                         continue;
                     }
                     let main = if decoy_first { format!(".include \"decoy.inc\"\n{}.include \"cond.inc\"\n{}", &r.program[..a], &r.program[b..]) } else { format!("{}.include \"cond.inc\"\n.include \"decoy.inc\"\n{}", &r.program[..a], &r.program[b..]) };
